@@ -18,6 +18,12 @@ func (o *OperandPegImpl) Require66h() bool {
 	is16bitMode := o.bitMode == cpu.MODE_16BIT
 	is32bitMode := o.bitMode == cpu.MODE_32BIT // 16ビットでなければ32ビットと仮定
 
+	// レジスタまたはサイズ指定付きメモリ (BYTE/WORD/DWORD [..]) がオペランドサイズを決める場合、
+	// 即値の大きさやアドレスレジスタの幅からオペランドサイズを推定してはならない
+	sizedByOperand := lo.ContainsBy(o.parsedOperands, func(p *ParsedOperandPeg) bool {
+		return p != nil && (isR8Type(p.Type) || isR16Type(p.Type) || isR32Type(p.Type) || isR64Type(p.Type) || explicitMemSize(p) != 0)
+	})
+
 	for _, parsed := range o.parsedOperands {
 		if parsed == nil {
 			continue
@@ -28,6 +34,10 @@ func (o *OperandPegImpl) Require66h() bool {
 		baseType := parsed.Type
 
 		switch {
+		case explicitMemSize(parsed) != 0: // サイズ指定付きメモリは Type が CodeM8/16/32 になる
+			inherentSize = explicitMemSize(parsed)
+		case sizedByOperand && !isRegisterType(baseType):
+			continue // 即値・サイズ指定なしメモリはオペランドサイズを決めない
 		case isR8Type(baseType) || (baseType == CodeM && parsed.DataType == ast.Byte):
 			inherentSize = 8
 		case isR16Type(baseType) || (baseType == CodeM && parsed.DataType == ast.Word):
@@ -126,4 +136,20 @@ func (o *OperandPegImpl) Require67h() bool { // レシーバーを追加
 	}
 
 	return false
+}
+
+// explicitMemSize はサイズ指定付きメモリオペランドのビット幅を返します (指定なし・メモリ以外は 0)。
+func explicitMemSize(p *ParsedOperandPeg) int {
+	if p == nil || p.Memory == nil {
+		return 0
+	}
+	switch p.DataType {
+	case ast.Byte:
+		return 8
+	case ast.Word:
+		return 16
+	case ast.Dword:
+		return 32
+	}
+	return 0
 }
